@@ -7,10 +7,11 @@ randint answer is an explorer choice (so collisions are forced); frame
 delivery order deviations are bounded.
 """
 import asyncio
+import contextlib
 import itertools
 import struct
 
-from mc import bussim, core, explore, vloop
+from mc import seams, bussim, core, explore, vloop
 
 import ebpfcat.ethercat as ecmod
 from ebpfcat.ethercat import EtherCat, Terminal
@@ -36,8 +37,7 @@ def sii_image(serial):
 def execute(ch, conf):
     pre, workload = conf
     loop = vloop.VLoop()
-    saved = ecmod.randint
-    with loop:
+    with contextlib.ExitStack() as stack, loop:
         terms = [bussim.Terminal(f"t{i}", station=a, sii=sii_image(100 + i))
                  for i, a in enumerate(pre)]
         bus = bussim.Bus(terms)
@@ -58,7 +58,12 @@ def execute(ch, conf):
             v = opts[ch.choose(len(opts), "randint", [0] * len(opts))]
             repeats[0] = repeats[0] + 1 if v in used else 0
             return v
-        ecmod.randint = randint
+        # every function of the random source is the harness's: randint
+        # as above, randrange / choice as free explorer choices
+        handlers = seams.default_handlers(
+            lambda n: ch.choose(n, "randint", [0] * n))
+        handlers["randint"] = randint
+        stack.enter_context(seams.own_random([ecmod], handlers))
         try:
             writes = []      # (terminal index, address, others' addresses)
             for i, t in enumerate(terms):
@@ -103,7 +108,6 @@ def execute(ch, conf):
                 scan = sorted(fut.result()[-1].items())
             positions = [getattr(t, "position", None) for t in tobjs]
         finally:
-            ecmod.randint = saved
             loop.shutdown()
     return dict(done=done, results=results, writes=writes, final=final,
                 scan=scan, positions=positions)
